@@ -1,6 +1,79 @@
 #!/bin/bash
-# thorough tier: all build configurations (+ checker self-test on the mutant corpus when present)
+# thorough tier:
+#  1. the property's rules on /repo's current tree in every build configuration that selects different
+#     source files or integer sizes: host (linux/amd64), linux/386 (32-bit int: strconv.IntSize, uint
+#     wrap-around clauses) and android/arm64 (safeprime stub instead of the generator);
+#  2. only if the tree is clean: self-test of the checker on the mutant corpus /verif/mutants/<Cnn>/ —
+#     every stored single-edit variant of the current tree must be reported with its expected obligation,
+#     every behaviour-preserving control must stay silent. Variants are built in a scratch directory that
+#     is removed afterwards; patches that no longer apply to the current tree are counted as skipped.
+# Nothing in /repo is executed at any point.
 set -u
 cd "$(dirname "$0")"
 PROP="$1"; REPO="$2"
-exec bin/gabilint -repo "$REPO" -prop "$PROP" -tier thorough -evidence /verif/evidence -findings /verif/known_findings.json
+EV=/verif/evidence
+S=$(mktemp -d /tmp/gabithorough.XXXXXX); trap 'rm -rf "$S"' EXIT
+bin/gabilint -repo "$REPO" -prop "$PROP" -tier thorough -evidence $EV -findings /verif/known_findings.json > $S/host.out 2>&1
+RC=$?
+cat $S/host.out
+[ $RC -ne 0 ] && exit 1
+declare -A CFG=( [linux/386]="-goos linux -goarch 386" [android/arm64]="-goos android -goarch arm64" )
+for c in linux/386 android/arm64; do
+  d=$S/ev_${c//\//_}; mkdir -p $d
+  bin/gabilint -repo "$REPO" -prop "$PROP" -tier thorough -evidence $d -findings /verif/known_findings.json ${CFG[$c]} > $S/cfg.out 2>&1
+  rc=$?
+  # the replay file of a failing configuration is the one the checker just wrote under /verif/replay
+  grep -E "^property=|VIOLATED|UNDECIDED" $S/cfg.out | cut -c1-400
+  if [ $rc -ne 0 ]; then
+    mkdir -p /verif/replay; cp $S/replay/$PROP.violations.json /verif/replay/ 2>/dev/null
+    echo "VIOLATION property=$PROP replay=/verif/replay/$PROP.violations.json"
+    # make the failing configuration's evidence the property's evidence
+    cp $d/$PROP.json $EV/$PROP.json 2>/dev/null
+    exit 1
+  fi
+done
+# ---- self-test on the mutant corpus
+N=0; CAUGHT=0; CTL=0; SKIP=0; MISS=""
+if [ -d mutants/$PROP ]; then
+  rsync -a --exclude .git "$REPO"/ $S/base/
+  run_one() {
+    p=$1; S=$2; PROP=$3
+    name=$(basename $p .patch); d=$S/m_$name
+    cp -r $S/base $d
+    if ! (cd $d && patch -p1 -s --no-backup-if-mismatch < /verif/$p >/dev/null 2>&1); then echo "SKIP $name"; rm -rf $d; return; fi
+    kind=$(cat /verif/mutants/$PROP/$name.kind 2>/dev/null || echo mutant)
+    if [ "$kind" = control ]; then
+      if /verif/bin/gabilint -repo $d -prop $PROP -evidence "" -findings /verif/known_findings.json >$d.out 2>&1; then echo "CTL-OK $name"; else echo "CTL-ALARM $name"; fi
+    else
+      exp=$(cat /verif/mutants/$PROP/$name.expect)
+      if /verif/bin/gabilint -repo $d -prop $PROP -evidence "" -findings /verif/known_findings.json -expect "$exp" >$d.out 2>&1; then echo "CAUGHT $name"; else echo "MISSED $name"; fi
+    fi
+    rm -rf $d $d.out
+  }
+  export -f run_one
+  ls mutants/$PROP/*.patch 2>/dev/null | xargs -P 6 -I{} bash -c 'run_one {} '"$S $PROP" > $S/self.out
+  N=$(grep -c . $S/self.out); CAUGHT=$(grep -c "^CAUGHT" $S/self.out); CTL=$(grep -c "^CTL-OK" $S/self.out); SKIP=$(grep -c "^SKIP" $S/self.out)
+  MISS=$(grep -E "^MISSED|^CTL-ALARM" $S/self.out | tr '\n' ';')
+  echo "selftest property=$PROP variants=$N caught=$CAUGHT controls_silent=$CTL skipped=$SKIP ${MISS:+FAILED: $MISS}"
+fi
+python3 - "$EV/$PROP.json" "$N" "$CAUGHT" "$CTL" "$SKIP" "$MISS" "$S" <<'PY'
+import json,sys,glob,os
+f,n,c,ctl,skip,miss,S=sys.argv[1:8]
+e=json.load(open(f))
+cov=e['coverage']
+cfgs=[{"config":"host (linux/amd64)","obligations":cov.get('obligations'),"discharged":cov.get('discharged')}]
+for d in sorted(glob.glob(S+'/ev_*')):
+    g=glob.glob(d+'/*.json')
+    if g:
+        x=json.load(open(g[0]))['coverage']
+        cfgs.append({"config":os.path.basename(d)[3:].replace('_','/'),"obligations":x.get('obligations'),"discharged":x.get('discharged')})
+cov['build_configurations']=cfgs
+cov['checker_selftest']={"variants":int(n),"mutants_caught":int(c),"controls_silent":int(ctl),"skipped_patch_does_not_apply":int(skip),"failed":miss,
+  "what":"each variant is a stored single-edit change of /repo (mutants/<id>/*.patch) that breaks one obligation and still compiles; the checker must report the expected obligation; controls are behaviour-preserving edits on which it must stay silent"}
+json.dump(e,open(f,'w'),indent=1)
+PY
+if [ -n "$MISS" ]; then
+  # the verdict on /repo above stands on its own; a failing self-test is recorded in the evidence and shown here
+  echo "SELFTEST-FAILED property=$PROP (the checker's detection power regressed on: $MISS)"
+fi
+exit 0
